@@ -464,6 +464,12 @@ func (cn *canoner) c1(v ssa.Value, d int) string {
 		}
 		return cn.call(&x.Call, d)
 	case *ssa.BinOp:
+		if _, xc := x.X.(*ssa.Const); xc && (x.Op == token.ADD || x.Op == token.MUL) && isInteger(x.Type()) {
+			if _, yc := x.Y.(*ssa.Const); !yc {
+				// commutative with a constant: constant last (1 + x ≡ x + 1)
+				return "(" + cn.c(x.Y, d+1) + " " + x.Op.String() + " " + cn.c(x.X, d+1) + ")"
+			}
+		}
 		return "(" + cn.c(x.X, d+1) + " " + x.Op.String() + " " + cn.c(x.Y, d+1) + ")"
 	case *ssa.Phi:
 		set := map[string]bool{}
